@@ -114,3 +114,10 @@ func BzOverlongRun(rng *rand.Rand) BzCase {
 	s, _ := synthStream(rng, o)
 	return BzCase{"synth-overlong-run", s}
 }
+
+// BzMultiBlock: a VALID synthesized stream (no injected fault) with nblocks small blocks.
+func BzMultiBlock(rng *rand.Rand, nblocks int) BzCase {
+	o := synthOpts{level: 1 + rng.Intn(9), nblocks: nblocks, nstreams: 1, plain: true}
+	s, _ := synthStream(rng, o)
+	return BzCase{"synth-multiblock", s}
+}
